@@ -1,17 +1,45 @@
 import RustbusModel.Model.Wire
 import RustbusModel.Spec.Wire
 import RustbusModel.Lemmas.Sig
+import RustbusModel.Lemmas.WireBytes
+import RustbusModel.Lemmas.WireBase
+import RustbusModel.Lemmas.WireDecEnc
+import RustbusModel.Lemmas.WireEncDec
 /-!
 Core lemmas about the wire model (used by Props/C01, C02, C03, C04, C18).
 The statements below are fixed; helper lemmas may be added above them or in Lemmas/Wire*.lean.
+The proofs live in
+* `Lemmas/WireBytes.lean`  — integers in both byte orders, slices, padding (`skipPad`/`readNum`, both directions)
+* `Lemmas/WireBase.lean`   — signatures as bytes (variant case); `encBase`/`decBase`, both directions
+* `Lemmas/WireDecEnc.lean` — one-step unfoldings of `dec`, `enc_pos'`, completeness `complete_all`
+* `Lemmas/WireEncDec.lean` — soundness `sound_all`
 -/
 namespace Rustbus.Wire
 open Rustbus Rustbus.Bytes Rustbus.Spec.Wire
 
+/-- A successful decode can be replayed with any descriptor count and nesting budget that still
+    cover the value (soundness, then completeness on the buffer cut around the consumed window). -/
+theorem dec_transfer (bo : ByteOrder) (buf : List UInt8) (nfds nfds' : Option Nat) (d d' : Nat) (t : Ty)
+    (off lim : Nat) (v : Val) (o' : Nat)
+    (h : dec bo buf nfds d t off lim = some (v, o'))
+    (hd : depthOf t v ≤ d → depthOf t v ≤ d')
+    (hfd : ∀ c, nfds' = some c → fdsBelow c t v = true) :
+    dec bo buf nfds' d' t off lim = some (v, o') := by
+  obtain ⟨h1, h2, h3, h4, h5, _⟩ := sound_all bo buf nfds d t off lim v o' h
+  obtain ⟨hdecomp, hlen⟩ := buf_decomp buf off (o' - off) (by omega)
+  have hsl : (slice buf off (o' - off)).length = o' - off := slice_length _ _ _ (by omega)
+  have key := complete_all bo nfds' d' t v off (buf.take off) (slice buf off (o' - off))
+    (buf.drop (off + (o' - off))) lim hlen.symm h4 (hd h5) hfd (by omega)
+    (by simp only [hlen, hsl, List.length_drop]; omega)
+  rw [← hdecomp, hsl] at key
+  rw [key]
+  have : off + (o' - off) = o' := by omega
+  rw [this]
+
 /-- every encoding has at least one byte (loop progress) -/
 theorem enc_pos (bo : ByteOrder) (off : Nat) (t : Ty) (v : Val) (bs : List UInt8)
-    (h : enc bo off t v = some bs) : 0 < bs.length := by
-  sorry
+    (h : enc bo off t v = some bs) : 0 < bs.length :=
+  enc_pos' bo t off v bs h
 
 /-- Decoding inverts encoding: whatever `enc` produces, placed at its offset between an arbitrary
     prefix and suffix, is decoded to the same value, consuming exactly the encoding, for every byte
@@ -23,8 +51,8 @@ theorem dec_enc (bo : ByteOrder) (t : Ty) (v : Val) (pre bs suf : List UInt8) (n
     (hd : depthOf t v ≤ d)
     (hfd : fdsOk nfds t v = true)
     (hl : pre.length + bs.length ≤ lim) (hl2 : lim ≤ pre.length + bs.length + suf.length) :
-    dec bo (pre ++ (bs ++ suf)) nfds d t pre.length lim = some (v, pre.length + bs.length) := by
-  sorry
+    dec bo (pre ++ (bs ++ suf)) nfds d t pre.length lim = some (v, pre.length + bs.length) :=
+  complete_all bo nfds d t v pre.length pre bs suf lim rfl h hd ((fdsOk_iff nfds t v).1 hfd) hl hl2
 
 /-- Encoding inverts decoding: whatever the decoder accepts, on **any** byte string, is exactly the
     encoding (at that offset) of the value it returns; it stays inside its limit, every array is
@@ -35,19 +63,34 @@ theorem enc_dec (bo : ByteOrder) (buf : List UInt8) (nfds : Option Nat) (d : Nat
     off < o' ∧ o' ≤ lim ∧ lim ≤ buf.length ∧
     enc bo off t v = some (slice buf off (o' - off)) ∧
     depthOf t v ≤ d ∧ fdsOk nfds t v = true := by
-  sorry
+  obtain ⟨h1, h2, h3, h4, h5, h6⟩ := sound_all bo buf nfds d t off lim v o' h
+  exact ⟨h1, h2, h3, h4, h5, (fdsOk_iff nfds t v).2 h6⟩
 
 /-- the descriptor check is the only difference between validating and unmarshalling -/
 theorem dec_nfds (bo : ByteOrder) (buf : List UInt8) (c d : Nat) (t : Ty) (off lim : Nat)
     (v : Val) (o' : Nat) :
     dec bo buf (some c) d t off lim = some (v, o') ↔
       (dec bo buf none d t off lim = some (v, o') ∧ fdsBelow c t v = true) := by
-  sorry
+  constructor
+  · intro h
+    refine ⟨dec_transfer bo buf (some c) none d d t off lim v o' h id (fun c hc => by cases hc), ?_⟩
+    exact (sound_all bo buf (some c) d t off lim v o' h).2.2.2.2.2 c rfl
+  · rintro ⟨h, hf⟩
+    exact dec_transfer bo buf none (some c) d d t off lim v o' h id
+      (fun c' hc => by cases hc; exact hf)
 
 /-- a larger nesting budget never changes a successful result -/
 theorem dec_mono (bo : ByteOrder) (buf : List UInt8) (nfds : Option Nat) (d d' : Nat) (t : Ty)
     (off lim : Nat) (r : Val × Nat) (hdd : d ≤ d')
     (h : dec bo buf nfds d t off lim = some r) : dec bo buf nfds d' t off lim = some r := by
-  sorry
+  obtain ⟨v, o'⟩ := r
+  exact dec_transfer bo buf nfds nfds d d' t off lim v o' h (fun hd => Nat.le_trans hd hdd)
+    (sound_all bo buf nfds d t off lim v o' h).2.2.2.2.2
 
 end Rustbus.Wire
+
+#print axioms Rustbus.Wire.enc_pos
+#print axioms Rustbus.Wire.dec_enc
+#print axioms Rustbus.Wire.enc_dec
+#print axioms Rustbus.Wire.dec_nfds
+#print axioms Rustbus.Wire.dec_mono
